@@ -38,6 +38,10 @@ CHECKS = {
          "No signing-path instruction overwrites, element-stores into or relabels an object owned by the caller's key data (one declared exception); the ECDSA k/gamma and EdDSA r_i nonces are stored once per session directly from GetRandomPositiveInt(round.Rand(), N); both save-data types are closed under encoding/json (exported fields or symmetric custom codecs with identical auxiliary types); the subset builder copies every per-party slice at one (j, savedIdx) pair and every other field group whole, into slices of its own.",
          "§4.20",
          "Not decided: equality of results after a JSON reload, nonce distinctness as a probability statement."),
+ "C03": ("accept-edge removal reachability on the per-peer verification closures, culprit-gate dominance for key-material stores, three-way table agreement (wire source / own slot / receivers' slot) extracted from the round-1 constructor, its call site, the accessors and the slot stores, data-dependence of the stored secret share; party-id and cofactor rules shared with C15/C17",
+         "In both keygen protocols a peer's contribution is reported good only through the accepting edges of the de-commitment, point decoding, Share.Verify and (ECDSA) modulus / no-small-factor proofs (compatibility switches only after a decoding failure; EdDSA: Schnorr proof), and public key material is stored only when nobody was blamed; for each field of the ECDSA round-1 broadcast the value sent, the sender's own slot and the slot peers fill agree, the stored Paillier private key is the one whose public half was sent, share ids are the party keys at the own position; x_i adds the own share and every peer's share; ids are non-zero and distinct modulo q; decoded Edwards points are cofactor-cleared in place.",
+         "§4.3",
+         "Not decided: that the public share points lie on one degree-t polynomial with the group key as constant term, x_i·G = X_i, equality of views across parties."),
  "C04": ("who-may-write (effect) and must-pass-through rules over the resharing packages: module-wide *big.Int ownership/mutation analysis for the old share, store/emit placement for the new key material, dominating accept-edge and for-all-loop facts at the acknowledgement send, constructor/NextRound placement of the erasing round, constructor-parameter plumbing by name agreement; round-engine and ok-flag rules shared with C07/C08",
          "The only instruction in the module that can modify the old share is one call in the final round's Start on the old-only branch; new key material is written and emitted only there, on the new-committee branch; the acknowledgement is sent (and the new share parked) only after every old member's de-commitment, point decoding and share check and the group-key comparison succeeded; the erasing round is constructed only by the acknowledgement round, which waits for the acknowledgement array; the resharing parameters (t', n') reach their accessors from the constructor arguments of the same name. The one place where a new member can still abort after the acknowledgements (ecdsa/resharing round 5, fac proofs) is a recorded known finding.",
          "§4.4",
